@@ -38,9 +38,10 @@ Definition check_printed (c : cmd_outcome) (observed : option N) : bool :=
   | _, _ => true
   end.
 
-(** one invocation: (options ok, exit status ok, printed blocks ok, in the known class) *)
-Definition check_step (pinned : bool) (g : globals) (s : subcmd) (expected : dispatch)
+(** one invocation: (options ok, exit status ok for the pinned code, exit status ok for the
+    repaired code, printed blocks ok, in the known class) *)
+Definition check_step (g : globals) (s : subcmd) (expected : dispatch)
            (c : cmd_outcome) (observed_exit : N) (observed_printed : option N)
-  : bool * bool * bool * bool :=
-  (check_argv g s expected, check_exit pinned c observed_exit,
+  : bool * bool * bool * bool * bool :=
+  (check_argv g s expected, check_exit true c observed_exit, check_exit false c observed_exit,
    check_printed c observed_printed, c20_known c).
